@@ -28,7 +28,7 @@ def positions(expl, v, N):
     return pos
 
 
-def h_explain(f, N, txt=None, period=None, defs=None, before=None, obj=False):
+def h_explain(f, N, txt=None, period=None, defs=None, before=None, obj=False, reconf=None):
     f = T(f)
     names = []
     if defs:
@@ -67,6 +67,12 @@ def h_explain(f, N, txt=None, period=None, defs=None, before=None, obj=False):
             s.declare_var('m', 'Msg')
             s.spec = 'out = ' + text(f)
             s.parse()
+        elif reconf:
+            # ONE object: evaluated and explained under another sampling period first, then re-configured (no new parse())
+            s = dt.make_spec('offline', 'out = ' + (txt or text(f)), vs, period=reconf)
+            dt.offline(s, {v: [-1.0] * N for v in vs}, N)
+            s.explain()
+            s.set_sampling_period(*(period or [1, 's', 0.1]))
         else:
             s = dt.make_spec('offline', 'out = ' + (txt or text(f)), vs, period=period)
         w = dt.trace(env, vs, N)
@@ -310,6 +316,8 @@ def obligations(tier, rng):
                         ('eventually[0,1](once[1:2]((x) >= (0.0)))', ('eventually_t', ('once_t', GU, 1, 2), 0, 1), ('eventually_t', ('once_t', GU, 2, 4), 0, 2))]:
         out.append(ob('C20', 'explain', 'units-history/%s/1s then 500ms' % txt, f=fb, N=7, txt=txt, period=[500, 'ms', 0.1], before=[[txt, None]], max_paths=40000, wall=600))
         out.append(ob('C20', 'explain', 'units-history/%s/500ms then 1s' % txt, f=fa, N=7, txt=txt, period=None, before=[[txt, [500, 'ms', 0.1]]], max_paths=40000, wall=600))
+        out.append(ob('C20', 'explain', 'units-reconfigured/%s/1s then 500ms' % txt, f=fb, N=7, txt=txt, period=[500, 'ms', 0.1], reconf=[1, 's', 0.1], max_paths=40000, wall=600))
+        out.append(ob('C20', 'explain', 'units-reconfigured/%s/500ms then 1s' % txt, f=fa, N=7, txt=txt, period=[1, 's', 0.1], reconf=[500, 'ms', 0.1], max_paths=40000, wall=600))
     # depth 3: a temporal operator over a Boolean combination with another temporal operator - the inner operator is asked
     # to explain SEVERAL disjoint intervals at once
     GA, GB = ('geq', X, ('const', 0.0)), ('geq', Y, ('const', 0.0))
